@@ -59,7 +59,7 @@ def _task_list(reg, only):
     if reg.lemmas:
         tasks.append(("lemmas", None))
     for key, c in reg.contracts.items():
-        if not c.verify or (only and only not in c.func):
+        if not c.verify or (only and only not in c.func) or (os.environ.get("PYVC_KEY") and os.environ["PYVC_KEY"] not in c.key):
             continue
         tasks.append(("contract", key))
     if reg.flow_contracts:
